@@ -1,10 +1,12 @@
 #!/bin/bash
-# tools/intake.sh <ID> <mN> "<needs to manifest>"   import a sub-agent's change from /tmp/mut/<ID>-out, confirm it in the
-# scratch worktree /tmp/mut/<ID>, then run the property's quick check against it (applied to /repo and undone).
+# tools/intake.sh <WT> <mN> "<needs to manifest>"   import a sub-agent's change from /tmp/mut/<WT>-out, confirm it in the
+# scratch worktree /tmp/mut/<WT>, then run the property's quick check against it (applied to /repo and undone).
+# <WT> is the property id, optionally followed by b (second agent of a round): C18b m5 -> seeded/C18-m5b
 set -u
-ID=$1; M=$2; NEEDS=$3
+WT=$1; M=$2; NEEDS=$3
+ID=${WT%b}; [ "$ID" != "$WT" ] && M=${M}b
 cd /verif
-python3 tools/seeded.py import $ID $M /tmp/mut/$ID-out "$NEEDS" || exit 2
-bash tools/verify_seeded.sh $ID $M
+python3 tools/seeded.py import $ID $M /tmp/mut/$WT-out "$NEEDS" || exit 2
+bash tools/verify_seeded.sh $ID $M /tmp/mut/$WT
 grep -q CONFIRMED=true seeded/$ID-$M/verify.log || { echo "NOT CONFIRMED"; tail -12 seeded/$ID-$M/verify.log; exit 1; }
 python3 tools/seeded.py run $ID-$M
